@@ -61,9 +61,10 @@ class BoxCommand(Command):
     args = 'self'
     mathMode = False
     def parse(self, tex):
-        MathShift.inEnv.append(None)
+        inEnv = MathShift.inEnvOf(self.ownerDocument)
+        inEnv.append(None)
         Command.parse(self, tex)
-        MathShift.inEnv.pop()
+        inEnv.pop()
         return self.attributes
 
 class hbox(BoxCommand): pass
@@ -81,6 +82,13 @@ class MathShift(Command):
     macroName = 'active::$'
     inEnv = []
 
+    @classmethod
+    def inEnvOf(cls, document):
+        """ The stack of open math shifts of one document """
+        if document is None:
+            return cls.inEnv
+        return document.userdata.setdefault('mathshift-inenv', [])
+
     def invoke(self, tex):
         r"""
         This gets a bit tricky because we need to keep track of both
@@ -88,7 +96,7 @@ class MathShift(Command):
         account \mbox{}es.
 
         """
-        inEnv = type(self).inEnv
+        inEnv = type(self).inEnvOf(self.ownerDocument)
 
         current = self.ownerDocument.createElement('math')
         for t in tex.itertokens():
